@@ -1206,6 +1206,28 @@ fn sort_reference(seed: u64) -> serde_json::Value {
                 "expected": {"ids (lexicographic order of the whole bit strings, ties in input order)": want}, "observed": {"ids": got}, "what": "Sort by a bit-string key wider than 64 bits, SimpleEvaluator vs. stable insertion by lexicographic comparison"});
         }
     }
+    // integer keys (SortByIntegerKey): numeric order, signed types included, ties in input order
+    for (st, vals) in [(INT32, vec![5i64, -3, 7, -3, 0, -2147483648, 2147483647, 5]), (UINT8, vec![200, 3, 255, 0, 3, 128, 127, 200]), (INT64, vec![-1, i64::MIN, i64::MAX, 0, -1, 1, 0, 42]), (INT8, vec![-128, 127, -1, 0, 1, -1, 64, -64]), (BIT, vec![1, 0, 1, 1, 0, 0, 1, 0])] {
+        tried += 1;
+        let n = vals.len() as u64;
+        let tt = named_tuple_type(vec![("k".to_owned(), array_type(vec![n], st)), ("id".to_owned(), array_type(vec![n], UINT64))]);
+        let ids: Vec<u64> = (0..n).map(|i| 100 + i).collect();
+        let enc: Vec<u64> = vals.iter().map(|&v| v as u64).collect();
+        let input = Value::from_vector(vec![Value::from_flattened_array(&enc, st).unwrap(), Value::from_flattened_array(&ids, UINT64).unwrap()]);
+        let mut ord: Vec<usize> = vec![]; for i in 0..n as usize { let mut pos = ord.len(); while pos > 0 && vals[ord[pos - 1]] > vals[i] { pos -= 1; } ord.insert(pos, i); }
+        let want: Vec<u64> = ord.iter().map(|&i| ids[i]).collect();
+        let r = catch_unwind(AssertUnwindSafe(|| eval_custom(CustomOperation::new(ciphercore_base::ops::integer_key_sort::SortByIntegerKey { key: "k".to_owned() }), vec![tt.clone()], vec![input.clone()])
+            .and_then(|v| { let cols = v.to_vector()?; if !cols[0].check_type(array_type(vec![n], st))? { return Err(ciphercore_base::runtime_error!("the key column does not come back with its type")); }
+                let ks: Vec<i64> = cols[0].to_flattened_array_i64(array_type(vec![n], st))?; let want_ks: Vec<i64> = { let mut w = vals.clone(); w.sort(); w };
+                if st != BIT && ks != want_ks { return Err(ciphercore_base::runtime_error!("the key column comes back as {:?}", ks)); }
+                cols[1].to_flattened_array_u64(array_type(vec![n], UINT64)) })));
+        let got = match r { Ok(Ok(t)) => t, Ok(Err(e)) => return json!({"found": true, "routine": "sort_reference", "property": "C18", "input": {"key_type": format!("{}", st), "keys": vals}, "observed": format!("integer-key sort: error: {}", e)}),
+            Err(_) => return json!({"found": true, "routine": "sort_reference", "property": "C18", "input": {"key_type": format!("{}", st), "keys": vals}, "observed": "integer-key sort: panic"}) };
+        if got != want {
+            return json!({"found": true, "routine": "sort_reference", "property": "C18", "input": {"key_type": format!("{}", st), "keys": vals, "ids": ids},
+                "expected": {"ids (numeric order of the keys, ties in input order)": want}, "observed": {"ids": got}, "what": "SortByIntegerKey evaluated after instantiation vs. stable insertion by numeric value"});
+        }
+    }
     json!({"found": false, "routine": "sort_reference", "tried": tried})
 }
 
